@@ -39,6 +39,7 @@ type PropConfig struct {
 	ReplayPkg   string   `json:"replay_pkg"`  // package dir (relative to repo) the harness is injected into
 	ReplayFile  string   `json:"replay_file"` // harness source under /verif/replay
 	ReplayTags  string   `json:"replay_tags"`
+	ReplayAlt   map[string][]string `json:"replay_alt"` // substring of the obligation's function -> [package dir, harness file]
 	Bounded     []string `json:"bounded"`
 	ExtraTrust  []string `json:"extra_trust"`
 	MinOblig    int      `json:"min_obligations"`
@@ -424,8 +425,24 @@ func writeJSON(path string, v interface{}) {
 // fails on the model's input.
 func runReplay(pc *PropConfig, id, replayFile string) (string, bool) {
 	repo := repoRoot()
-	harness := filepath.Join(verifRoot(), "replay", pc.ReplayFile)
-	target := filepath.Join(repo, pc.ReplayPkg, "zz_govc_replay_test.go")
+	rpkg, rfile := pc.ReplayPkg, pc.ReplayFile
+	// a property whose functions live in several packages may name another harness for some of them
+	if len(pc.ReplayAlt) > 0 {
+		if data, err := os.ReadFile(replayFile); err == nil {
+			var rep struct {
+				Function string `json:"function"`
+			}
+			if json.Unmarshal(data, &rep) == nil {
+				for key, alt := range pc.ReplayAlt {
+					if len(alt) == 2 && strings.Contains(rep.Function, key) {
+						rpkg, rfile = alt[0], alt[1]
+					}
+				}
+			}
+		}
+	}
+	harness := filepath.Join(verifRoot(), "replay", rfile)
+	target := filepath.Join(repo, rpkg, "zz_govc_replay_test.go")
 	ov := map[string]interface{}{"Replace": map[string]string{target: harness}}
 	ovFile := replayFile + ".overlay.json"
 	writeJSON(ovFile, ov)
@@ -434,7 +451,7 @@ func runReplay(pc *PropConfig, id, replayFile string) (string, bool) {
 	if pc.ReplayTags != "" {
 		tags = pc.ReplayTags
 	}
-	cmd := exec.Command("go", "test", "-overlay", ovFile, "-tags", tags, "-vet=off", "-count=1", "-timeout", "120s", "-run", "TestGovcReplay", "./"+pc.ReplayPkg+"/")
+	cmd := exec.Command("go", "test", "-overlay", ovFile, "-tags", tags, "-vet=off", "-count=1", "-timeout", "120s", "-run", "TestGovcReplay", "./"+rpkg+"/")
 	cmd.Dir = repo
 	cmd.Env = append(os.Environ(), "GOVC_REPLAY_FILE="+replayFile, "GOFLAGS=-mod=mod", "GOPROXY=off", "GOSUMDB=off", "GOTOOLCHAIN=local")
 	out, _ := cmd.CombinedOutput()
